@@ -19,7 +19,17 @@ RULE = ("Samplers: generated axis-aligned boxes (dimension 1-5; unit / centred /
         "by the first drawn integer of the case (Hypothesis' own choices starve the non-default classes), sizes are ordinary draws. "
         "Bezier: control nets with integer or log-uniform coordinates, degree 0-6 (curves) and (0-4)x(0-4) (patches) in 2-D/3-D, "
         "parameters inside [0,1] (incl. 0, 1) and outside (incl. 1e-9 beyond, nan, inf), export resolutions 2-9 (n1, n2 drawn "
-        "independently). numpy.random is seeded from the case. non-trivial = box differs from the unit cube and n>0 / "
+        "independently). Class 'cached-attr' (40 % of the polyline / surface cases, 50 % of the share cases): the mesh is built on an earlier, "
+        "non-affinely different geometry, the persistent attributes edge 'length' / face 'area' / face 'normals' are computed there, then every "
+        "vertex is rebound to the final geometry before sampling - all oracles follow the final geometry. Class 'degenerate-faces' / "
+        "'zero-length-edge' (25 % of the surface / polyline cases, 40 % / 25 % of the share cases): one or two faces are 1-to-3 split by a vertex "
+        "placed exactly on a corner or on a side midpoint (exactly zero-area faces in the middle of the face list), an extra vertex duplicates a "
+        "position and is joined by a zero-length edge: such elements have share 0 and hold no sample of their own. Class 'second-call' (30 %): the "
+        "same box / centre Vec / mesh object serves a second request with other parameters; every curve / patch is exported twice (patch with "
+        "swapped resolutions). After every call the arguments are compared with a snapshot (box and its corner sequences, centre Vec, mesh "
+        "coordinates / connectivity / attribute names, control points). Scales: meshes 1e-6..1e6, radii 1e-6..1e6 (class 'r extreme'), control "
+        "nets 'tiny' (1e-6) / 'huge' (1e6); integer-typed centres, radii, box corners and control nets (numpy-int / vec-int). "
+        "numpy.random is seeded from the case. non-trivial = box differs from the unit cube and n>0 / "
         "radius != 1 or centre != 0 (n>0) / >=2 edges or faces and n>0 / degree >= 2 (curves) / n1 != n2 (patches); "
         "distinct = distinct realised cases.")
 ASSUMPTIONS = [
@@ -29,8 +39,10 @@ ASSUMPTIONS = [
     "statistical sub-checks: a sample is attributed to the edge/face it lies on; criterion = exact two-sided binomial tail >= 1e-8/(2m) per element "
     "(m elements; the sound form of the 6-sigma rule, false-alarm probability < 1e-8 per case)",
     "stat_ball_radial grounds on the docstring 'Samples points uniformly inside a 3D ball' (the property text itself only demands containment)",
-    "polylines have >= 1 edge, pairwise distinct vertices; surfaces are triangulated with min angle >= 8 degrees (>= 3 degrees after the "
-    "stretch of stat_share_surface) and >= 1 face",
+    "polylines have >= 1 edge of positive length; surfaces are triangulated, their non-degenerate faces have min angle >= 8 degrees (>= 3 degrees "
+    "after the stretch of stat_share_surface) and there is >= 1 of them; exactly degenerate elements (zero-length edge, zero-area face) are in "
+    "the domain of sampling WITHOUT normals (the unchanged library samples the other elements correctly); with return_normals=True a zero-area "
+    "face makes face_normals raise FloatingPointError - normals of a degenerate face are undefined, so that combination is not generated",
     "box:uniform-spread (>= 100 uniform draws span at least half of every side; false-alarm probability < 1e-27) grounds on the docstring "
     "'uniformly at random inside' the box; the property text itself only demands containment",
 ]
